@@ -1,6 +1,9 @@
 use std::io;
 use std::ops::{Add, AddAssign, Sub};
 use std::slice::SliceIndex;
+#[cfg(indicatif_verif)]
+use std::sync::Arc;
+#[cfg(not(indicatif_verif))]
 use std::sync::{Arc, RwLock, RwLockWriteGuard};
 use std::thread::panicking;
 use std::time::Duration;
@@ -13,6 +16,8 @@ use web_time::Instant;
 
 use crate::multi::{MultiProgressAlignment, MultiState};
 use crate::TermLike;
+#[cfg(indicatif_verif)]
+use verif_sync::{RwLock, RwLockWriteGuard};
 
 /// Target for draw operations
 ///
